@@ -76,6 +76,9 @@ public:
    */
   size_t getSize();
 
+  /** Saves the hash to a file (in the representation that load expects) */
+  void save(std::ostream &fp);
+
   /** Loads a hash from a file*/
   static HashBBdh *load(std::istream &fp);
 
@@ -83,5 +86,6 @@ public:
 
 protected:
   BitSequence *offsets;
+  uint hashbits; // bits per entry of the hash table stored in the file
 };
 #endif
